@@ -38,6 +38,7 @@ repeated here.
 import BV.Props.C01Chain
 import BV.Props.C10
 import BV.Lemmas.ChainFinal
+import BV.Props.C01MetaBlockFull
 
 namespace BV.Props.C10Chain
 open BV.Hasher BV.MatchFinder BV.Recoder BV.PrefixArith BV.MetaBlock BV.Cbr BV.Props.C01Chain
@@ -198,6 +199,71 @@ theorem C10_faithful_q29 (p0 : BV.Header.Params) (size : Nat) (dict : Nat → Na
     lastInsertLen numLiterals res hpos' hmb hc hcl h).1
   rw [decoder_window p0 size dict hq p hlg, ← hh]
   exact ⟨h1, h2⟩
+
+/-- **`C10_full_roundtrip_q49`** — quality 4–9 down to the bits, with a custom dictionary: `CreateBackwardReferences`,
+then `BrotliStoreMetaBlock` (model `storeMetaBlockFull`: block splits, context maps, literal context modelling) with ANY
+well-formed `MetaBlockSplit` whose histograms cover the emitted symbols (`MBOK` / `Covers`; for the greedy builder:
+C01Greedy's `greedy_split_wellformed`), then the GENERAL RFC 7932 reader in the state of the decoder that holds the same
+dictionary = dictionary tail ++ earlier input ++ block, consuming exactly the emitted bits.  `prevByte` / `prevByte2`
+are the last two bytes of the DECODER's history (for the first block: of the dictionary tail, `dict_positions_agree` (3)).
+The command hypotheses `cmdOK`, `lockstep`, `faithful` and the payload are discharged; `hcl2` (`copy_len() ≥ 2` for copying
+commands) stays: a 1-byte static-dictionary match is reachable with an extreme `literal_byte_score`. -/
+theorem C10_full_roundtrip_q49 (p0 : BV.Header.Params) (size : Nat) (dict : Nat → Nat) (hsz : 0 < size)
+    (hq : 2 ≤ encQ p0) (rbits : Nat) (hR : (decoderFor p0 size dict).dEff ≤ 2 ^ rbits) :
+    ∃ s, setCustomDictionary p0 size dict size = some s ∧
+      ∀ {H : Type} (ops : HasherOps H) (p : Cbr.Params) (large : Bool) (wo : WordOracle) (data : ByteArray)
+        (k tail : Nat) (prev mb : Bytes) (lo : Nat) (_hlg : p.lgwin = encL p0)
+        (_hb : BlockOK p large data k tail (encHistory s ++ prev) mb lo) (_hops : OpsOK (SlotOK wo) ops p data k)
+        (numBytes position : Nat) (h0 : H) (cache : List Int) (lastInsertLen numLiterals : Nat) (res : Result H)
+        (_hpos : position = (decoderFor p0 size dict).dEff + prev.length + lastInsertLen)
+        (_hmb : mb.length = lastInsertLen + numBytes) (_hc : CacheI32 cache) (_hcl : 4 ≤ cache.length)
+        (_h : createBackwardReferences ops p numBytes position h0 cache lastInsertLen numLiterals = some res)
+        (_hcl2 : ∀ c ∈ closeMetaBlock res.cmds res.lastInsertLen, copyLen c ≠ 0 → 2 ≤ copyLen c)
+        (ring : Bytes) (start mask prevByte prevByte2 : Nat) (isLast : Bool) (mode : Nat) (mbs : MBSplit) (w : List Bool)
+        (_hRH : RingHolds ring mask start mb) (_h256 : ∀ b ∈ mb, b < 256)
+        (_hh256 : ∀ b ∈ decHistory (decoderFor p0 size dict) rbits ++ prev, b < 256)
+        (_h1 : 1 ≤ mb.length) (_h64 : start + mb.length < 2 ^ 64)
+        (_hIP : inputPairCheck ring start mb.length mask = .ok ())
+        (_hprev : prevByte = lastB (decHistory (decoderFor p0 size dict) rbits ++ prev) ∧
+          prevByte2 = last2B (decHistory (decoderFor p0 size dict) rbits ++ prev)) (_hmode : mode < 4)
+        (_hM : MBOK mbs (distAlphabetSize large 0 0))
+        (_hcL : Covers mbs.litHistos (effMap mbs.litCmap mbs.litCmapSize mbs.lit.numTypes 64) 64
+          (remTypes mbs.lit 0 (mbs.lit.lengths.getD 0 0))
+          (litSymsOf mode (decHistory (decoderFor p0 size dict) rbits ++ prev) mb 0
+            (closeMetaBlock res.cmds res.lastInsertLen)))
+        (_hcI : Covers mbs.cmdHistos (trivialMap mbs.cmd.numTypes 1) 1
+          (remTypes mbs.cmd 0 (mbs.cmd.lengths.getD 0 0))
+          ((closeMetaBlock res.cmds res.lastInsertLen).map fun c => (0, c.cmdPrefix)))
+        (_hcD : Covers mbs.distHistos (effMap mbs.distCmap mbs.distCmapSize mbs.dist.numTypes 4) 4
+          (remTypes mbs.dist 0 (mbs.dist.lengths.getD 0 0)) (distSymsOf (closeMetaBlock res.cmds res.lastInsertLen))),
+        ∃ bits ring',
+          storeMetaBlockFull ring start mb.length mask prevByte prevByte2 isLast ⟨0, 0, distAlphabetSize large 0 0, large⟩
+            mode (closeMetaBlock res.cmds res.lastInsertLen) mbs w = .ok (w ++ bits) ∧
+          ∀ rest, readMetaBlockFullG wo (decoderFor p0 size dict).mbd large w.length
+              ⟨decHistory (decoderFor p0 size dict) rbits ++ prev, cache.take 4⟩ (bits ++ rest)
+            = some (⟨decHistory (decoderFor p0 size dict) rbits ++ prev ++ mb, ring'⟩, isLast, (w ++ bits).length, rest) := by
+  obtain ⟨s, hs, hh⟩ := histories_agree p0 size dict hsz hq rbits hR
+  refine ⟨s, hs, ?_⟩
+  intro H ops p large wo data k tail prev mb lo hlg hb hops numBytes position h0 cache lastInsertLen numLiterals res
+    hpos hmb hc hcl h hcl2 ring start mask prevByte prevByte2 isLast mode mbs w hRH h256 hh256 h1 h64 hIP hprev hmode hM
+    hcL hcI hcD
+  have hpos' : position = (encHistory s ++ prev).length + lastInsertLen := by
+    rw [List.length_append, hh, decHistory_length]; exact hpos
+  obtain ⟨hok, hlock, hrep⟩ := commands_lockstep ops p large wo data k tail (encHistory s ++ prev) mb lo hb hops numBytes
+    position h0 cache lastInsertLen numLiterals res hpos' hmb hc hcl h
+  have hfa := cbr_faithful ops p large wo data k tail (encHistory s ++ prev) mb lo hb hops numBytes position h0 cache
+    lastInsertLen numLiterals res hpos' hmb hc hcl h
+  have hA544 : distAlphabetSize large 0 0 ≤ 544 := by cases large <;> decide
+  rw [hh] at hlock hrep hfa
+  rw [decoder_window p0 size dict hq p hlg]
+  obtain ⟨bits, out, ring', e, _, hrd, hout⟩ := BV.Props.C01MetaBlockFull.full_metablock_roundtrip wo (maxBackwardLimit p) ring
+    start mask prevByte prevByte2 mb isLast ⟨0, 0, distAlphabetSize large 0 0, large⟩ mode _ mbs
+    (decHistory (decoderFor p0 size dict) rbits ++ prev) (cache.take 4) w hRH h256 hh256 h1 hb.len h64 hIP hprev hmode
+    (by show 0 ≤ 3; decide) (by show 0 % 2 ^ 0 = 0; decide) (by show 0 / 2 ^ 0 < 16; decide) rfl hA544 hok hcl2 hlock hfa hM
+    hcL hcI hcD
+  have := hout hrep
+  subst this
+  exact ⟨bits, ring', e, hrd⟩
 
 /-! ### non-vacuity: an 8-byte custom dictionary (the first 8 bytes of `BV.Cbr.Example.text`) at quality 5, lgwin 10;
 the block is the remaining 24 bytes, searched at position 8 = `d'`.  Every hypothesis of `C10_roundtrip_q29_partial`
